@@ -34,3 +34,7 @@ check("C19", "model_checking",
       "Explicit-state BFS over the ordered record list of a RuleImputeManager: alphabet of 8 adds (valid, invalid, same formula, same SMILES, charged, salt, heavy, empty), all 64 ordered bulk pairs and 8 removes; depth 3 (thorough 4) from empty, depth 1 (thorough 2) from both shipped databases and from a DataFrame source; every transition runs the real method and is compared with a plain-list model, the invariant is evaluated in every state, every state's discovering history is replayed on a single object.",
       "State = record list only (validated by the single-object replays); SMILES validity/composition are RDKit's. Shipped-database duplicates are recorded known findings.",
       "explicit-state breadth-first search over real objects with a reference model (step oracle + state invariant)", "DESIGN.md 4/C19")
+check("C12", "model_checking",
+      "Explicit-state BFS over the cache directory (file -> bytes): all crash-free histories of <= 3 runs over 42 run operations (thresholds x inputs x batch sizes, two-column rows under two column configurations) plus crash operations: every run from the empty cache (thorough: also from depth-1 states) killed after every prefix of its recorded file effects and at byte positions inside each written file (quick every 512th + first/last 3; thorough every 16th, every byte for 3 runs), each crash state followed by every run. Every run transition executes the real rebalance on a materialised directory and is compared with the uncached run.",
+      "Balancer.__run_pipeline memoised per (configuration, batch) behind the real cache logic; kill = prefix of the recorded file effects (file-effect recorder wraps open/os.replace/rename/remove); persistent state = cache directory only.",
+      "explicit-state breadth-first search over persistent state with crash-point (torn write) enumeration, differential oracle vs uncached run", "DESIGN.md 4/C12")
